@@ -44,6 +44,7 @@ type Contract struct {
 	NoInline bool
 	Iface    bool // contract of an interface method (key = pkg.Iface.Method)
 	Splits   []SplitSpec // case splits applied to every ensures obligation
+	PureIf   CExpr       // when this holds in the pre-state the call modifies nothing (frame is conditional)
 	Loops    map[int]*LoopSpec
 	Props    []string // property ids that own this function's obligations (informational)
 }
@@ -69,6 +70,11 @@ type Ghost struct {
 	AllocType string // Go type whose allocation zero-initialises this ghost ("" = none)
 }
 
+type ImmutDecl struct {
+	Pkg   string
+	Spec  string // "Type.Field" or "ghost NAME"
+}
+
 type GlobalInv struct {
 	Label string
 	Pkg   string
@@ -89,6 +95,7 @@ type Contracts struct {
 	Ghosts  map[string]*Ghost
 	GInvs   []*GlobalInv
 	Lemmas  []*Lemma
+	Immutable []ImmutDecl // heap components that no code writes after construction (checked by SSA scan)
 	Sources []string
 }
 
@@ -100,7 +107,7 @@ var clauseKeywords = map[string]bool{
 	"ghost": true, "spec": true, "global-invariant": true, "func": true, "extern": true, "iface": true,
 	"requires": true, "ensures": true, "modifies": true, "pure": true, "trusted": true, "inline": true,
 	"noinline": true, "loop": true, "invariant": true, "decreases": true, "lemma": true, "assume": true,
-	"show": true, "props": true, "loopmodifies": true, "split": true,
+	"show": true, "props": true, "loopmodifies": true, "split": true, "pureif": true, "immutable": true,
 }
 
 // logical lines: keyword + rest (continuations joined)
@@ -276,6 +283,16 @@ func (cs *Contracts) LoadFile(path, pkgPath string) error {
 			}
 			cs.Specs[m[1]] = &SpecMacro{Name: m[1], Pkg: pkgPath, Params: parseSpecParams(m[2]), Ret: m[3], Body: body}
 			cur, curLoop, curLemma = nil, nil, nil
+		case "immutable":
+			rest := strings.TrimSpace(l.rest)
+			if strings.HasPrefix(rest, "ghost ") {
+				cs.Immutable = append(cs.Immutable, ImmutDecl{pkgPath, rest})
+			} else {
+				for _, f := range strings.Fields(rest) {
+					cs.Immutable = append(cs.Immutable, ImmutDecl{pkgPath, f})
+				}
+			}
+			cur, curLoop, curLemma = nil, nil, nil
 		case "global-invariant":
 			c, err := parseLabeled(l.rest)
 			if err != nil {
@@ -315,6 +332,9 @@ func (cs *Contracts) LoadFile(path, pkgPath string) error {
 				return fail(l, "bad function header %q", rest)
 			}
 			key := qualify(m[1], pkgPath)
+			if l.kw == "iface" && !strings.Contains(m[1], "/") && pkgPath != "" {
+				key = pkgPath + "." + strings.ReplaceAll(m[1], " ", "")
+			}
 			cur = &Contract{Key: key, Pkg: pkgPath, File: path, Params: namesOf(m[2]), Results: namesOf(m[3]), Extern: ext, Trusted: ext,
 				Iface: l.kw == "iface", Loops: map[int]*LoopSpec{}}
 			if _, dup := cs.Funcs[key]; dup {
@@ -386,6 +406,15 @@ func (cs *Contracts) LoadFile(path, pkgPath string) error {
 			case "noinline":
 				cur.NoInline = true
 			}
+		case "pureif":
+			if cur == nil {
+				return fail(l, "pureif outside function")
+			}
+			pe, err := ParseCExpr(l.rest)
+			if err != nil {
+				return fail(l, "%v", err)
+			}
+			cur.PureIf = pe
 		case "split":
 			if cur == nil {
 				return fail(l, "split outside function")
